@@ -217,7 +217,7 @@ impl<const N: u32> PxE1<{ N }> {
 
             let (mut regime, reg_sz, reg_z) = Self::calculate_regime(k_z);
 
-            let u_z = if reg_z > (N - 2) {
+            let u_z = if reg_z + 2 > N {
                 //max or min pos. exp and frac does not matter.
                 if reg_sz {
                     0x_7FFF_FFFF & Self::mask()
@@ -232,7 +232,7 @@ impl<const N: u32> PxE1<{ N }> {
                     frac64_z &= 0x_3FFF_FFFF_FFFF_FFFF;
                     frac_z = (frac64_z >> (reg_z + 33)) as u32; //frac32Z>>16;
 
-                    if reg_z != (N - 2) {
+                    if reg_z + 2 != N {
                         bit_n_plus_one =
                             ((0x_8000_0000_0000_0000_u64 >> (N - reg_z - 1)) & frac64_z) != 0;
                         bits_more =
@@ -242,7 +242,7 @@ impl<const N: u32> PxE1<{ N }> {
                         frac_z = 0;
                         bits_more = true;
                     }
-                    if (reg_z == (N - 2)) && (exp_z != 0) {
+                    if (reg_z + 2 == N) && (exp_z != 0) {
                         bit_n_plus_one = true;
                         exp_z = 0;
                     }
@@ -256,7 +256,11 @@ impl<const N: u32> PxE1<{ N }> {
                     frac_z = 0;
                 }
 
-                exp_z <<= 29 - reg_z;
+                exp_z = if reg_z <= 29 {
+                    exp_z << (29 - reg_z)
+                } else {
+                    exp_z >> (reg_z - 29)
+                };
 
                 let mut u_z = Self::pack_to_ui(regime, exp_z as u32, frac_z);
 
